@@ -222,6 +222,33 @@ def extra_sync_block(tier, seed):
     return dict(violations=viol, coverage=dict(sync_block_scenarios=n))
 
 
+CANCEL_PROBE_EXPECTED = [
+    "kill_drop_before_grant handled=[1, 2, 4] res3=dropped tell4=ok join=ended(killed=true) on_stop=Some(true)",
+    "stop_drop_before_grant handled=[1, 2, 4] res3=dropped tell4=ok join=ended(killed=false) on_stop=Some(false)",
+    "kill_drop_after_grant handled=[1, 2, 4] res3=dropped tell4=ok join=ended(killed=true) on_stop=Some(true)",
+    "stop_drop_after_grant handled=[1, 2, 4] res3=dropped tell4=ok join=ended(killed=false) on_stop=Some(false)",
+    "kill_drop_after_kill_consumed handled=[1, 2] res3=dropped join=ended(killed=true) on_stop=Some(true)",
+    "kill_poll_after_kill_consumed handled=[1, 2] res3=err join=ended(killed=true) on_stop=Some(true)",
+    "stop_poll_granted_then_stop handled=[1, 2, 3] res3=ok join=ended(killed=false) on_stop=Some(false)",
+    "timeout_granted_overdue handled=[1, 2, 3] res3=ok result_matches_delivery=true join=ended"
+]
+
+
+def extra_cancel_probe(tier, seed):
+    """C06 / C03 / C07: send futures cancelled or completed while they wait for, or have just been
+    handed, a mailbox slot, around a kill or a stop - schedules that need a future to stay un-polled
+    across other steps (KGiveBack / late KFail of Model/Chan.v).  The actor must end whatever the
+    waiting sender does, the cancelled message is never handled, a freed slot is usable at once."""
+    bins = vlib.build_harness((), bins=("director", "cancel_probe"))
+    real = probe([bins["cancel_probe"]], 300).strip().splitlines()
+    viol = []
+    if real != CANCEL_PROBE_EXPECTED:
+        diff = [(r, e) for r, e in zip(real, CANCEL_PROBE_EXPECTED) if r != e]
+        viol.append(dict(what="an actor did not end, handled a cancelled message, or a freed slot was not usable, after a waiting send was cancelled",
+                         real=real, expected=CANCEL_PROBE_EXPECTED, first_difference=diff[:1], replay_cmd="cancel_probe"))
+    return dict(violations=viol, coverage=dict(cancel_probe_scenarios=len(real)))
+
+
 def extra_id_stress(tier, seed):
     """C11: ids handed out by concurrent spawns from many OS threads (fresh process): the model's
     id_of_index says the n-th spawn gets id n, so n spawns give exactly 1..n, all distinct; every
@@ -252,7 +279,7 @@ def extra_id_stress(tier, seed):
 def extra_config_probe(tier, seed):
     """C09: the process-wide default capacity, probed in fresh subprocesses (real vs model)."""
     bins = vlib.build_harness((), bins=("director", "config_probe"))
-    seqs = ["-", "0", "5", "0,5,7", "3,3", "1", "7,0,2", "s,2", "s,0,3,4", "2,s,5"]
+    seqs = ["-", "0", "5", "0,5,7", "3,3", "1", "7,0,2", "s,2", "s,0,3,4", "2,s,5", "32,2", "32,0,32,7", "s,32,5"]
     if tier == "thorough":
         seqs += ["2", "4,4,4", "0,0,9", "64", "33"]
     viol, rows = [], []
@@ -337,7 +364,7 @@ def extra_metrics_probe(tier, seed):
     """C20: wall-clock scenarios on a metrics build: counts exact, durations by inequality."""
     bins = vlib.build_harness(("metrics",), bins=("director", "metrics_probe"))
     n = 40 if tier == "quick" else 400
-    out = probe([bins["metrics_probe"], str(seed), str(n)], 1200).splitlines()
+    out = probe([bins["metrics_probe"], str(seed), str(n)], 300 if tier == "quick" else 1200).splitlines()
     viol = [dict(what="metrics probe failed", scenario=l, replay_cmd="metrics_probe %d %d" % (seed, n)) for l in out if l.startswith(("FAIL", "PROBE-"))]
     return dict(violations=viol, coverage=dict(metrics_scenarios=len(out), metrics_sample=out[:2]))
 
@@ -481,36 +508,38 @@ def extra_erased(tier, seed):
     return dict(violations=viol[:5], coverage=dict(erased_pairs=len(pairs), erased_identical=same, erased_accepted=acc))
 
 
+ALLF = ("dd", "metrics", "testutils", "tracing")
+
 PROPS = {
     "C01": dict(
         props_file="Props/C01.v",
-        families=[("core", NONE, 150), ("time", NONE, 100), ("fault", NONE, 50), ("exh", NONE, 3)],
+        families=[("core", NONE, 150), ("time", NONE, 100), ("fault", NONE, 50), ("exh", NONE, 3), ("core", ALLF, 60), ("multi", ALLF, 40)],
         projection="C01", monitors=["C01"],
-        extra=[extra_mt_stress, extra_chan_probe],
+        extra=[extra_mt_stress, extra_chan_probe, extra_cancel_probe],
     ),
     "C02": dict(
         props_file="Props/C02.v",
-        families=[("core", NONE, 150), ("time", NONE, 100), ("exh", NONE, 3), ("block", NONE, 25)],
+        families=[("core", NONE, 150), ("time", NONE, 100), ("exh", NONE, 3), ("block", NONE, 25), ("core", ALLF, 60), ("multi", ALLF, 40), ("multi", ("dd",), 40)],
         projection="C02", monitors=["C02"],
         extra=[extra_mt_stress, extra_chan_probe, extra_sync_block],
     ),
     "C03": dict(
         props_file="Props/C03.v",
-        families=[("fault", NONE, 150), ("multi", NONE, 60), ("core", NONE, 100), ("hostile", NONE, 40), ("exh", NONE, 3)],
+        families=[("fault", NONE, 150), ("multi", NONE, 60), ("core", NONE, 100), ("hostile", NONE, 40), ("exh", NONE, 3), ("core", ALLF, 60), ("multi", ALLF, 40)],
         projection="C03", monitors=["C03"],
-        extra=[extra_join_probe, extra_late_push, extra_mt_stress, extra_chan_probe],
+        extra=[extra_join_probe, extra_late_push, extra_mt_stress, extra_chan_probe, extra_cancel_probe],
         level_note="Reply integrity and 'the next poll after the target has ended finishes the operation' are proved for every reachable state; that tokio actually wakes the asker (oneshot/channel-close wakers) is runtime behaviour tied only by the correspondence runs to quiescence; ask_join is modelled as a pure function of the ask's result and of how the spawned task ended (value / panic / abort), proved exact (C03_ask_join_exact) and compared with the real crate on every case (join_probe); the task itself and tokio's JoinHandle are exercised, not modelled. On a multi-thread runtime the no-hang clause was violated by a rare race (an envelope pushed after the mailbox had been drained; found by the stress probes, repaired by a fix: commit in /repo, DESIGN.md 7b); the late_push_probe keeps watching for it.",
     ),
     "C07": dict(
         props_file="Props/C07.v",
-        families=[("core", NONE, 250), ("hostile", NONE, 50), ("exh", NONE, 3), ("endings", NONE, 1)],
+        families=[("core", NONE, 250), ("hostile", NONE, 50), ("exh", NONE, 3), ("endings", NONE, 1), ("core", ALLF, 60)],
         projection="C07", monitors=["C07"],
-        extra=[extra_mt_stress],
+        extra=[extra_mt_stress, extra_cancel_probe],
         level_note="Causes of ending, no spontaneous ending and reference accounting are proved; 'eventually ends' is proved as a ranking argument (the rank never rises, every enabled step of the actor lowers it or enters on_stop, a step is enabled unless the hook is blocked); that an enabled step is eventually taken is the fairness of the tokio scheduler (a woken task is eventually polled), which is outside the model (partial).",
     ),
     "C11": dict(
         props_file="Props/C11.v",
-        families=[("core", NONE, 200), ("hostile", NONE, 50), ("fault", NONE, 50), ("exh", NONE, 3)],
+        families=[("core", NONE, 200), ("hostile", NONE, 50), ("fault", NONE, 50), ("exh", NONE, 3), ("core", ALLF, 60)],
         projection="C11", monitors=["C11"],
         extra=[extra_id_stress, extra_mt_stress],
     ),
@@ -522,13 +551,13 @@ PROPS = {
     ),
     "C08": dict(
         props_file="Props/C08.v",
-        families=[("core", NONE, 200), ("fault", NONE, 100), ("exh", NONE, 3), ("endings", NONE, 1)],
+        families=[("core", NONE, 200), ("fault", NONE, 100), ("exh", NONE, 3), ("endings", NONE, 1), ("core", ALLF, 60)],
         projection="C08", monitors=["C08"],
         level_note="The order theorem is about the mailbox as polled in the same pass; a message arriving between the mailbox poll and the on_run poll of one pass on a multi-thread runtime is outside the model (partial). Trusted base as for the other checks.",
     ),
     "C09": dict(
         props_file="Props/C09.v",
-        families=[("core", NONE, 150), ("time", NONE, 100), ("hostile", NONE, 50), ("exh", NONE, 3), ("block", NONE, 25)],
+        families=[("core", NONE, 150), ("time", NONE, 100), ("hostile", NONE, 50), ("exh", NONE, 3), ("block", NONE, 25), ("core", ALLF, 60)],
         projection="C09", monitors=["C09"],
         extra=[extra_config_probe, extra_chan_probe, extra_sync_block],
     ),
@@ -536,7 +565,7 @@ PROPS = {
         props_file="Props/C10.v",
         families=[("time", NONE, 250), ("core", NONE, 50), ("block", NONE, 20)],
         projection="C10", monitors=["C10"],
-        extra=[extra_lazy_probe],
+        extra=[extra_lazy_probe, extra_cancel_probe],
         level_note="Async variants: proved on the model's virtual clock and checked on tokio's paused clock. That tokio's timer wakes the task at the deadline, and the wall-clock behaviour of the blocking variants' helper thread, are runtime facts outside the model (partial).",
     ),
     "C13": dict(
@@ -601,20 +630,21 @@ PROPS = {
     ),
     "C04": dict(
         props_file="Props/C04.v",
-        families=[("core", NONE, 150), ("fault", NONE, 150), ("exh", NONE, 3), ("endings", NONE, 1)],
+        families=[("core", NONE, 150), ("fault", NONE, 150), ("exh", NONE, 3), ("endings", NONE, 1), ("core", ALLF, 60)],
         projection="C04", monitors=["C04", "C06"],
         extra=[extra_mt_stress],
     ),
     "C05": dict(
         props_file="Props/C05.v",
-        families=[("core", NONE, 150), ("fault", NONE, 150), ("exh", NONE, 3), ("endings", NONE, 1)],
+        families=[("core", NONE, 150), ("fault", NONE, 150), ("exh", NONE, 3), ("endings", NONE, 1), ("core", ALLF, 60)],
         projection="C05", monitors=["C05"],
         extra=[extra_result_table, extra_mt_stress],
     ),
     "C06": dict(
         props_file="Props/C06.v",
-        families=[("core", NONE, 150), ("fault", NONE, 100), ("hostile", NONE, 50), ("exh", NONE, 3), ("endings", NONE, 1)],
+        families=[("core", NONE, 150), ("fault", NONE, 100), ("hostile", NONE, 50), ("exh", NONE, 3), ("endings", NONE, 1), ("core", ALLF, 60)],
         projection="C06", monitors=["C06", "C04"],
+        extra=[extra_cancel_probe],
     ),
 }
 
